@@ -16,8 +16,11 @@ RULE = ("Each case = one whole simulated Pynguin run with assertion generation M
         "re-executed TWICE on the unmutated module with Pynguin's verification observer on a private executor: no "
         "assertion may fail or error. "
         "(2) Every real call of _select_minimal_assertions is checked: selection subset of candidates and "
-        "kills(selection) == kills(all). (3) The mutation summary is recomputed from the raw per-test/per-mutant "
-        "results by a reference and the reported score must equal killed/(checked - timed out), lie in [0,1]. Looping "
+        "kills(selection) == kills(all); every assertion-minimization call is bracketed with reference kill sets built "
+        "from the raw verification traces (an assertion kills a mutant if it failed OR errored on it) - the assertions "
+        "kept must kill every mutant the generated ones kill. (3) The mutation summary is recomputed from the raw "
+        "per-test/per-mutant results by a reference and the reported score must equal killed/(mutants - timed out - "
+        "never executed), lie in [0,1]. Looping "
         "mutants time out in virtual time (simulated clock), so the timeout clause is exercised without waiting. "
         "Non-trivial = >= 2 assertions survived and (>= 2 mutants with a kill map of >= 2 assertions, or SIMPLE mode); "
         "distinct = distinct run digest.")
@@ -79,6 +82,8 @@ class KillMonitor(Monitor):
         self.timeouts = 0
         self.score = None
         self.killed_then_timeout = 0
+        self.ref_kill_maps = 0
+        self.unchecked = 0
         self.filter_statements_with_failed_and_error = 0
         self.max_assertions_on_one_statement = 0
         self.widest_kill_index = 0
@@ -121,16 +126,59 @@ class KillMonitor(Monitor):
 
         run.patch(base_cls, rn, staticmethod(remove_non_holding))
         cls = ag.MutationAnalysisAssertionGenerator
+        mn = "_MutationAnalysisAssertionGenerator__minimize_assertions"
+        orig_min = getattr(cls, mn)
+
+        def minimize_assertions(test_cases, tests_mutants_results, mutation_summary):
+            # reference kill sets straight from the raw verification traces (failed AND errored assertions count,
+            # timed-out mutants do not), keyed by the assertion OBJECT so that they survive the removal of others
+            timed_out = {i for i, info in enumerate(mutation_summary.mutant_information) if info.timed_out_by}
+            before = []
+            for test, results in zip(test_cases, tests_mutants_results):
+                kills = {}
+                for si, st_ in enumerate(test.statements()):
+                    if st_.has_only_exception_assertion():
+                        continue
+                    for ai, a in enumerate(st_.assertions):
+                        ks = set()
+                        for m_idx, res in enumerate(results):
+                            if res is None or m_idx in timed_out:
+                                continue
+                            vt = res.assertion_verification_trace
+                            if ai in vt.failed.get(si, ()) or ai in vt.error.get(si, ()):
+                                ks.add(m_idx)
+                        kills[id(a)] = (a, ks)
+                before.append(kills)
+            orig_min(test_cases, tests_mutants_results, mutation_summary)
+            for t_idx, (test, kills) in enumerate(zip(test_cases, before)):
+                all_k = set().union(*(ks for _a, ks in kills.values())) if kills else set()
+                kept_ids = {id(a) for st_ in test.statements() for a in st_.assertions}
+                kept_k = set().union(*(ks for i_, (_a, ks) in kills.items() if i_ in kept_ids)) if kills else set()
+                if all_k:
+                    mon.ref_kill_maps += 1
+                if kept_k != all_k:
+                    lost = sorted(all_k - kept_k)
+                    culprit = next((repr(a) for a, ks in kills.values() if ks & set(lost)), "?")
+                    run.violate("minimization:loses-kills",
+                                f"test #{t_idx}: the assertions generated for it kill mutants {sorted(all_k)} (failed or "
+                                f"errored on the mutant, per the raw verification traces); after assertion minimization "
+                                f"the kept ones kill only {sorted(kept_k)} - lost {lost}, e.g. through {culprit}")
+                    return
+
+        run.patch(cls, mn, staticmethod(minimize_assertions))
         name = "_MutationAnalysisAssertionGenerator__compute_mutation_summary"
         orig_cms = getattr(cls, name)
 
         def cms(number_of_mutants, tests_mutants_results):
             summary = orig_cms(number_of_mutants, tests_mutants_results)
-            killed = timed = 0
+            killed = timed = unchecked = 0
             for m in range(number_of_mutants):
                 state = "survived"
-                for per_test in tests_mutants_results:
-                    res = per_test[m] if m < len(per_test) else None
+                column = [per_test[m] if m < len(per_test) else None for per_test in tests_mutants_results]
+                if tests_mutants_results and all(r is None for r in column):
+                    unchecked += 1  # never executed by any test (e.g. the mutated module does not import)
+                    continue
+                for res in column:
                     if res is None:
                         continue
                     if res.timeout:
@@ -145,7 +193,8 @@ class KillMonitor(Monitor):
                     timed += 1
                 elif state == "killed":
                     killed += 1
-            div = number_of_mutants - timed
+            mon.unchecked += unchecked
+            div = number_of_mutants - timed - unchecked
             ref = 1.0 if div == 0 else killed / div
             score = summary.get_metrics().get_score()
             mon.mutants += number_of_mutants
@@ -156,8 +205,8 @@ class KillMonitor(Monitor):
                 run.violate("score:out-of-range", f"mutation score {score!r}")
             elif abs(score - ref) > 1e-12:
                 run.violate("score:differs-from-reference",
-                            f"reported score {score!r}, reference killed/(checked-timeouts) = {killed}/({number_of_mutants}"
-                            f"-{timed}) = {ref!r}")
+                            f"reported score {score!r}, reference killed/(mutants - timed out - never executed) = {killed}/"
+                            f"({number_of_mutants}-{timed}-{unchecked}) = {ref!r}")
             return summary
 
         run.patch(cls, name, staticmethod(cms))
@@ -203,6 +252,8 @@ def run_case(case: dict) -> dict:
     res["probes"].update(minimal_selection_calls=mon.selections, selections_with_2plus_assertions_and_mutants=mon.rich_selections,
                          assertions_kept=mon.kept_assertions, mutants_checked=mon.mutants, mutants_timed_out=mon.timeouts,
                          mutants_killed_then_timed_out=mon.killed_then_timeout,
+                         minimizations_checked_against_reference_kill_sets=mon.ref_kill_maps,
+                         mutants_never_executed=mon.unchecked,
                          filter_statements_with_failed_and_error=mon.filter_statements_with_failed_and_error,
                          runs_with_statement_of_17plus_assertions=int(mon.max_assertions_on_one_statement >= 17),
                          runs_with_kill_at_assertion_index_16plus=int(mon.widest_kill_index >= 16))
